@@ -3,7 +3,7 @@
    programs translated from the current tree. *)
 From Coq Require Import List NArith ZArith Bool Arith Lia.
 Import ListNotations.
-Require Import Verif.Lib.Wire Verif.Lib.C15Prog Verif.Gen.Facts_C15 Verif.Model.C15.
+Require Import Verif.Lib.Wire Verif.Lib.C15Prog Verif.Lib.C15Init Verif.Gen.Facts_C15 Verif.Model.C15.
 
 (* the facts: the translated programs are the ones the proofs are about *)
 Lemma facts_lookup_prog : lookup_prog = std_lookup Local true.
@@ -991,6 +991,32 @@ Proof. reflexivity. Qed.
 Lemma facts_multiview_stateless : multiview_stateless = true.
 Proof. reflexivity. Qed.
 
+(* generated = model for _call_view.  The script does not mention the generated text: it generalises the
+   initial values of the loop-carried variables of whatever fixpoint was emitted (flags first, results after) *)
+Lemma gen_call_view_is_model : forall call vs, gen_call_view call vs = model_call_view call vs false.
+Proof.
+  intros call vs. unfold gen_call_view.
+  match goal with
+  | |- ?f vs false None = _ =>
+      assert (H : forall l b, f l b None = model_call_view call l b);
+      [ induction l as [|v r IH]; intros b; simpl;
+        [ destruct b; reflexivity | destruct (call v); [reflexivity|apply IH] ]
+      | apply H ]
+  end.
+Qed.
+
+Lemma model_call_view_first tbl : forall vs b,
+  outcome_view (model_call_view (call_of tbl) vs b) = first_answer tbl vs.
+Proof.
+  induction vs as [|v r IH]; intros b; simpl.
+  - destruct b; reflexivity.
+  - unfold call_of. destruct (answer_of tbl v); [reflexivity|apply IH].
+Qed.
+
+Lemma call_view_first_answer : forall tbl vs,
+  outcome_view (gen_call_view (call_of tbl) vs) = first_answer tbl vs.
+Proof. intros. rewrite gen_call_view_is_model. apply model_call_view_first. Qed.
+
 Lemma request_answer_sound : forall sro R0 tr j vs t tbl,
   expect sro KeyFull lookup_prog register_prog (init R0) tr (fun _ => None) j = Some vs ->
   threads (exec sro KeyFull lookup_prog register_prog tr (init R0)) j = Some t -> cont t = [] ->
@@ -998,7 +1024,8 @@ Lemma request_answer_sound : forall sro R0 tr j vs t tbl,
 Proof.
   intros sro R0 tr j vs t tbl He Ht Hc.
   destruct (expect_sound sro R0 tr j vs t He Ht Hc) as [_ H].
-  unfold request_answer. rewrite facts_call_view_reads_only, facts_multiview_stateless, H. reflexivity.
+  unfold request_answer. rewrite facts_call_view_reads_only, facts_multiview_stateless, H. simpl.
+  rewrite call_view_first_answer. reflexivity.
 Qed.
 
 (* ================= what the lock is needed for =================
